@@ -24,7 +24,7 @@ LEVEL_NOTE = (
     "cancellation is asynchronous through the reaper task: 'at most one live owner' over schedules is not decided by "
     "this technique; guards and write discipline are decided path-sensitively on the source of task_unique"
 )
-TECHNIQUE = "path-sensitive abstract interpretation of task_unique (guard atoms dominating reaper_cancel / paired map updates), sibling key-form agreement, ordering in the decorator call paths"
+TECHNIQUE = "abstract interpretation of task_unique on every small registry model (who is handed to the reaper, paired map updates), sibling key-form agreement, who-may-write tables, ordering in the decorator call paths"
 
 TU = "function.py::Function.task_unique_factory.task_unique"
 
@@ -203,51 +203,14 @@ def run(ctx):
     ctx.rule("R13.1", "task.unique, task.name2id and the kill_me pre-check qualify names identically: what one of them records for (context, name) the others find", floor=3)
     key_agreement_rule(ctx, program, "R13.1")
 
-    # path-sensitive analysis of task_unique --------------------------------------------------------------------
-    pol = FlowPolicy(program, events=["cls.reaper_cancel", "asyncio.sleep"], may_raise_all=False, cancel=False,
-                     locals_={"name", "kill_me", "curr_task", "task", "cls", "ctx"}, no_raise={"asyncio.current_task"})
-    pol.atom_attrs = {"our_tasks", "unique_name2task", "unique_task2name"}
-    pol.emit_setitem = True
-    out = run_flow(program, TU, pol, args={"cls": None} if False else None)
-    paths = exits(out)
-    if not paths:
-        raise AnalysisError("task_unique: no paths")
-
-    def assumed(c, needle, val):
-        for atom, v in c.assume:
-            if needle(repr(atom)) and v == val:
-                return True
-        return False
-
     ctx.rule("R13.2", "reaper_cancel of another task is dominated by 'different task' and 'task in our_tasks'; of the caller by kill_me and 'different owner'", floor=2)
-    n_other = n_self = 0
-    bad_other = bad_self = None
-    for kind, c, desc in paths:
-        for e in c.trace:
-            if e[0] == "call" and e[1] == "cls.reaper_cancel":
-                arg = e[2][0] if e[2] else None
-                is_self = repr(arg) == repr(c.env.get("curr_task")) or "current_task" in repr(arg)
-                diff = assumed(c, lambda s: "noteq(" in s and "current_task" in s, True) or assumed(c, lambda s: s.startswith("('truth', eq(") and "current_task" in s, False)
-                if is_self:
-                    n_self += 1
-                    km = assumed(c, lambda s: "'param', 'kill_me'" in s and "noteq" not in s and " in(" not in s, True)
-                    if not (diff and km):
-                        bad_self = f"line {e[4]}: caller cancelled without {'kill_me' if not km else 'a different current owner'} established"
-                else:
-                    n_other += 1
-                    ours = assumed(c, lambda s: " in(" in s.replace("('truth', in(", " in(") and "our_tasks" in s, True) or assumed(c, lambda s: s.startswith("('truth', in(") and "our_tasks" in s, True)
-                    if not (diff and ours):
-                        bad_other = f"line {e[4]}: task cancelled without {'task != current task' if not diff else 'task in our_tasks'} established"
-    ctx.check(n_other >= 1 and bad_other is None, "R13.2", TU, "cancel of the previous owner guarded",
-              msg=f"task.unique: {bad_other or 'no path cancels the previous owner'} - tasks not started by pyscript (or the caller itself) could be cancelled",
-              key="guard of reaper_cancel(other)", node=fn, rel="function.py", sample={"paths": n_other})
-    ctx.check(n_self >= 1 and bad_self is None, "R13.2", TU, "kill_me cancels the caller only when another task owns the name",
-              msg=f"task.unique(kill_me=True): {bad_self or 'no path cancels the caller'} - a task re-claiming its own name would kill itself",
-              key="guard of reaper_cancel(self)", node=fn, rel="function.py", sample={"paths": n_self})
+    # decided on the finite registry models (who owns the name, who is a pyscript task, kill_me): the task handed to the reaper on every path
+    unique_table(ctx, program, "R13.2", aspect="cancel")
 
     ctx.rule("R13.4", "unique names are released only by run_coro when the owner ends", floor=2)
     regs = task_registries(program)
     rem = [(k, r, u, n) for k, r, u, n in registry_writes(program, {"unique_task2name": "dict"}) if k == "remove"]
+    rem = [(k, r, RUN_CORO if program.only_reached_from(u, {RUN_CORO}) else u, n) for k, r, u, n in rem]  # (a helper that only run_coro calls is part of it)
     ctx.check(all(u == RUN_CORO for _, _, u, _ in rem) and len(rem) >= 1, "R13.4", RUN_CORO, "entries of unique_task2name removed only in run_coro",
               msg=f"entries of unique_task2name are removed in {sorted({u for _, _, u, _ in rem})}", key="who removes unique_task2name", rel="function.py",
               node=rem[0][3] if rem else None)
@@ -258,6 +221,7 @@ def run(ctx):
                 inv.append(u.uid)
             if isinstance(n, ast.Call) and isinstance(n.func, ast.Attribute) and n.func.attr in ("pop", "clear") and "unique_name2task" in norm(n.func.value):
                 inv.append(u.uid)
+    inv = [RUN_CORO if program.only_reached_from(u, {RUN_CORO}) else u for u in inv]
     ctx.check(set(inv) == {RUN_CORO}, "R13.4", RUN_CORO, "owner map entries deleted only in run_coro",
               msg=f"unique_name2task entries are deleted in {sorted(set(inv))}; only run_coro's finally clause may release a name", key="who deletes unique_name2task",
               rel="function.py", node=program.func(RUN_CORO))
@@ -353,8 +317,8 @@ def run(ctx):
              "exactly its names), only pyscript tasks take names, the right task is handed to the reaper", floor=24)
     unique_table(ctx, program, "R13.6")
     return (
-        "Static, source-only: task_unique is abstractly interpreted path-sensitively; every reaper_cancel event is checked against the guard atoms "
-        "decided on its path (different task, task in our_tasks, kill_me); key forms of the three API sites are compared; task_unique interpreted on every small registry model (transition table with "
+        "Static, source-only: task_unique is abstractly interpreted on every small registry model; the task handed to the reaper on each path is compared with the "
+        "specified one (different task, task in our_tasks, kill_me); key forms of the three API sites are compared; task_unique interpreted on every small registry model (transition table with "
         "the two-way consistency invariant of the registries); write discipline on the two maps is checked over the whole package; claim-before-body ordering in both decorator paths.  Not decided: mutual exclusion over interleavings "
         "(cancellation is asynchronous through the reaper)."
     )
@@ -381,7 +345,7 @@ def _key_of(program, name, ctx_name="ctx"):
     return keys.pop()
 
 
-def unique_table(ctx, program, rid):
+def unique_table(ctx, program, rid, aspect=None):
     """task_unique interpreted on finite registry models; checks events and the two-way consistency of the registries."""
     fn = program.func(TU)
     N, M = _key_of(program, "n"), _key_of(program, "m")
@@ -432,7 +396,10 @@ def unique_table(ctx, program, rid):
                                 bad = f"registries become {a!r} / {b!r}"
                                 continue
                             if cancelled != want_cancel:
-                                bad = f"hands {cancelled} to the reaper, specified {want_cancel}"
+                                bad = f"hands {cancelled} to the reaper, specified {want_cancel}" + \
+                                      (" - tasks not started by pyscript (or the caller itself, or a task re-claiming its own name) could be cancelled" if aspect == "cancel" else "")
+                            elif aspect == "cancel":
+                                pass
                             elif kill_me and other and cur_ours:
                                 if kind != "raise" or getattr(c.env.get("$exc"), "cls", "") != "CancelledError":
                                     bad = f"the caller continues ({desc}) although another task owns the name and kill_me is set"
